@@ -9,6 +9,43 @@ From DD Require Import Lfu.LfuModel Lfu.LfuSpec.
 
 Notation ekeys l := (map ekey l).
 
+(** * Generic list facts *)
+
+Lemma find_split {A} (p : A -> bool) l e :
+  find p l = Some e ->
+  exists l1 l2, l = l1 ++ e :: l2 /\ p e = true /\ (forall x, In x l1 -> p x = false).
+Proof.
+  induction l as [|a r IH]; cbn [find]; [discriminate|].
+  destruct (p a) eqn:Pa; intros H.
+  - inversion H; subst a. exists [], r. split; [reflexivity|]. split; [exact Pa|intros x []].
+  - destruct (IH H) as (l1 & l2 & El & Pe & Hl1). exists (a :: l1), l2.
+    split; [rewrite El; reflexivity|]. split; [exact Pe|].
+    intros x [E|Hx]; [subst x; exact Pa|exact (Hl1 x Hx)].
+Qed.
+
+Lemma find_hd_filter {A} (p : A -> bool) l : find p l = hd_error (filter p l).
+Proof.
+  induction l as [|a r IH]; [reflexivity|]. cbn [find filter].
+  destruct (p a); [reflexivity|exact IH].
+Qed.
+
+Lemma NoDup_snoc {A} (l : list A) (a : A) : NoDup l -> ~ In a l -> NoDup (l ++ [a]).
+Proof.
+  induction l as [|b l IH]; cbn [app]; intros Hnd Hn.
+  - constructor; [intros []|constructor].
+  - apply NoDup_cons_iff in Hnd. destruct Hnd as [Hb Hnd]. constructor.
+    + intros C. apply in_app_or in C. destruct C as [C|[C|[]]]; [exact (Hb C)|].
+      apply Hn. left. symmetry. exact C.
+    + apply IH; [exact Hnd|]. intros C. apply Hn. right. exact C.
+Qed.
+
+Section Gen.
+Variable val : Type.
+Local Notation entry := (entry val).
+Local Notation spec := (spec val).
+Local Notation op := (op val).
+Implicit Types (v : val) (e a x : entry) (l r : list entry) (s : spec) (o : op) (ops : list op).
+
 (* ------------------------------------------------------------------ *)
 (** * Unfolding equations *)
 
@@ -196,24 +233,6 @@ Proof.
     + exists e. split; [right; exact He|lia].
 Qed.
 
-Lemma find_split {A} (p : A -> bool) l e :
-  find p l = Some e ->
-  exists l1 l2, l = l1 ++ e :: l2 /\ p e = true /\ (forall x, In x l1 -> p x = false).
-Proof.
-  induction l as [|a r IH]; cbn [find]; [discriminate|].
-  destruct (p a) eqn:Pa; intros H.
-  - inversion H; subst a. exists [], r. split; [reflexivity|]. split; [exact Pa|intros x []].
-  - destruct (IH H) as (l1 & l2 & El & Pe & Hl1). exists (a :: l1), l2.
-    split; [rewrite El; reflexivity|]. split; [exact Pe|].
-    intros x [E|Hx]; [subst x; exact Pa|exact (Hl1 x Hx)].
-Qed.
-
-Lemma find_hd_filter {A} (p : A -> bool) l : find p l = hd_error (filter p l).
-Proof.
-  induction l as [|a r IH]; [reflexivity|]. cbn [find filter].
-  destruct (p a); [reflexivity|exact IH].
-Qed.
-
 Lemma victim_some l : l <> [] -> exists e, victim l = Some e.
 Proof.
   intros H. destruct (min_uses_attained l H) as (e & He & Ee).
@@ -276,16 +295,6 @@ Proof.
   apply sremove_length_lt. unfold victim in E. apply find_some in E. apply in_map. exact (proj1 E).
 Qed.
 
-Lemma NoDup_snoc {A} (l : list A) (a : A) : NoDup l -> ~ In a l -> NoDup (l ++ [a]).
-Proof.
-  induction l as [|b l IH]; cbn [app]; intros Hnd Hn.
-  - constructor; [intros []|constructor].
-  - apply NoDup_cons_iff in Hnd. destruct Hnd as [Hb Hnd]. constructor.
-    + intros C. apply in_app_or in C. destruct C as [C|[C|[]]]; [exact (Hb C)|].
-      apply Hn. left. symmetry. exact C.
-    + apply IH; [exact Hnd|]. intros C. apply Hn. right. exact C.
-Qed.
-
 Lemma sget_sinv s k : sinv s -> sinv (fst (sget s k)).
 Proof.
   intros [Hnd Hlen]. unfold sget. destruct (sfind k (entries s)) as [e|] eqn:F; [|exact (conj Hnd Hlen)].
@@ -315,7 +324,7 @@ Qed.
 Lemma sstep_sinv s o : 1 <= scap s -> sinv s -> sinv (fst (sstep s o)).
 Proof. intros Hc H. destruct o as [k|k v]; [exact (sget_sinv s k H)|exact (sset_sinv s k v Hc H)]. Qed.
 
-Lemma srun_cons s o r :
+Lemma srun_cons s o (r : list op) :
   srun s (o :: r) =
   (fst (srun (fst (sstep s o)) r),
    match o with OGet _ => snd (sstep s o) :: snd (srun (fst (sstep s o)) r)
@@ -419,7 +428,7 @@ Proof.
       destruct (sfind_some k _ e F) as [_ Ek]. rewrite Ek. reflexivity.
     + apply sfind_sreplace_other. congruence.
   - cbn [entries]. rewrite sfind_app.
-    assert (Hk : forall l, (forall x, In x (ekeys l) -> In x (ekeys (entries s))) -> sfind k l = None).
+    assert (Hk : forall l, (forall x : key, In x (ekeys l) -> In x (ekeys (entries s))) -> sfind k l = None).
     { intros l Hl. apply sfind_none_iff. intros C. apply sfind_none_iff in F. exact (F (Hl k C)). }
     destruct (Z.eqb_spec k k') as [E|NE].
     + subst k'. rewrite Hk.
@@ -571,3 +580,72 @@ Proof.
   - destruct (entries s); [cbn [length] in Hfull; lia|discriminate].
   - rewrite V in H. discriminate.
 Qed.
+
+End Gen.
+Arguments sfind_cons {val}.
+Arguments sremove_cons {val}.
+Arguments sremove_app {val}.
+Arguments sfind_none_iff {val}.
+Arguments sfind_some {val}.
+Arguments sfind_in_nodup {val}.
+Arguments sfind_app {val}.
+Arguments sremove_keys {val}.
+Arguments sremove_notin {val}.
+Arguments sremove_nodup {val}.
+Arguments sremove_in {val}.
+Arguments sfind_sremove_same {val}.
+Arguments sfind_sremove_other {val}.
+Arguments sremove_split {val}.
+Arguments sremove_length {val}.
+Arguments sremove_length_le {val}.
+Arguments sremove_length_lt {val}.
+Arguments sreplace_keys {val}.
+Arguments sreplace_length {val}.
+Arguments sfind_sreplace_same {val}.
+Arguments sfind_sreplace_other {val}.
+Arguments min_uses_cons {val}.
+Arguments min_uses_le {val}.
+Arguments min_uses_attained {val}.
+Arguments victim_some {val}.
+Arguments victim_spec {val}.
+Arguments sval {val}.
+Arguments suses {val}.
+Arguments sinv {val}.
+Arguments evicted_by_set {val}.
+Arguments sget_cap {val}.
+Arguments sset_cap {val}.
+Arguments sstep_cap {val}.
+Arguments evict_nodup {val}.
+Arguments evict_keys {val}.
+Arguments evict_length {val}.
+Arguments sget_sinv {val}.
+Arguments sset_sinv {val}.
+Arguments sstep_sinv {val}.
+Arguments srun_cons {val}.
+Arguments srun_app {val}.
+Arguments srun_sinv {val}.
+Arguments sempty_sinv {val}.
+Arguments spec_bounded {val}.
+Arguments sget_value {val}.
+Arguments sget_miss {val}.
+Arguments sfind_sget {val}.
+Arguments sget_keeps_values {val}.
+Arguments sget_hit_uses {val}.
+Arguments sget_miss_uses {val}.
+Arguments sfind_sset {val}.
+Arguments sset_same {val}.
+Arguments sset_other {val}.
+Arguments no_eviction_present {val}.
+Arguments no_eviction_room {val}.
+Arguments sset_uses {val}.
+Arguments sget_miss_nothing {val}.
+Arguments sget_returns {val}.
+Arguments sset_values {val}.
+Arguments no_eviction_otherwise {val}.
+Arguments evicts {val}.
+Arguments undisturbed {val}.
+Arguments sstep_keeps_value {val}.
+Arguments sstep_evicted_gone {val}.
+Arguments spec_last_value {val}.
+Arguments sset_evicts {val}.
+Arguments sset_no_evict_entries {val}.
